@@ -36,7 +36,10 @@ def run():
     trace = os.path.join(vlib.scratch(), "crash.ndjson")
     vlib.run_zv(zv, "crash", [], trace, timeout=3000)
     cases, v = flow.validate(out, "crash", "CrashTrace.tla", "CrashTrace.cfg", trace, zv, max_confirm=40,
-                             env={"VERIF_DEVS": _devs()})
+                             env={"VERIF_DEVS": _devs()},
+                             # a call that did not return within the workers' limit is re-executed with three times
+                             # the limit before it is reported: the machine may be busy, the verdict must not be
+                             replay_env={"ZV_HUNG_S": "60"})
     by = collections.Counter((c["src"], c["cfg"], c["entry"]) for c in cases.values())
     outs = collections.Counter(o[0] for c in cases.values() for o in c["outs"])
     texts = set(t for c in cases.values() for t in c["texts"])
